@@ -55,7 +55,7 @@ pub struct MultipartBody {
 #[async_trait]
 impl ExclusiveExtractor for MultipartBody {
     async fn from_request<Context: ServerContext>(
-        _rqctx: &RequestContext<Context>,
+        rqctx: &RequestContext<Context>,
         request: hyper::Request<crate::Body>,
     ) -> Result<Self, HttpError> {
         let (parts, body) = request.into_parts();
@@ -90,7 +90,13 @@ impl ExclusiveExtractor for MultipartBody {
                 ),
             })?;
         Ok(MultipartBody {
-            content: multer::Multipart::new(body.into_data_stream(), boundary),
+            // Like every other body extractor, never read more than the
+            // request body size limit.
+            content: multer::Multipart::new(
+                StreamingBody::new(body, rqctx.request_body_max_bytes())
+                    .into_stream(),
+                boundary,
+            ),
         })
     }
 
